@@ -147,6 +147,12 @@ def c17 (stream : String) (fs : List String) : String :=
     let parts := (String.ofList (decodeField g)).splitOn "|"
     let frags := (parts.take (parts.length - 1)).map c17NatList
     toString (unusedCount frags [opl])
+  | "c17.perop", [ops, g] =>
+    let oparts := (String.ofList (decodeField ops)).splitOn "/"
+    let opl := (oparts.take (oparts.length - 1)).map c17NatList
+    let parts := (String.ofList (decodeField g)).splitOn "|"
+    let frags := (parts.take (parts.length - 1)).map c17NatList
+    toString (validationCount frags opl)
   | _, _ => "bad-case"
 
 end Driver
